@@ -1,7 +1,10 @@
-(* C02 — Frames are attributed to the library mapped at that address at sample time (flush level:
-   LibMappingOpQueue replay + stack conversion passes 1-2, i.e. what ProcessSampleData::flush_samples_to_profile does
-   with the mapping operations and samples the converter queued). *)
+(* C02 — Frames are attributed to the library mapped at that address at sample time.
+   Flush level: LibMappingOpQueue replay + stack conversion passes 1-2 (what ProcessSampleData::flush_samples_to_profile does with the
+   mapping operations and samples the converter queued).  Converter level: how MMAP2 / FORK / EXEC records build those queues, the
+   relative start of a mapping, the call chain -> frame list translation, and the composition for time-ordered recordings. *)
 From SV Require Import Generated.Consts Model.LibMappings Spec.LibMappingsSpec Model.Attribution Spec.AttributionSpec Proofs.AttributionProofs.
+From SV Require Import Model.ConverterMaps Proofs.ConverterMapsProofs.
+From Coq Require Import ZArith.
 Open Scope N_scope.
 
 (* the comparison in next_op_if_at_or_before, regenerated from the source: an op stamped exactly at the sample time applies *)
@@ -34,7 +37,53 @@ Theorem C02_lookup_addresses :
                lookup_addr (SAdj a md) = Some (a, md) /\ lookup_addr SMarker = None.
 Proof. intros. repeat split. Qed.
 
+(* ---- converter level ---- *)
+(* for EVERY record history the queue of a process is: the mappings announced for that pid since its last exec, in arrival order,
+   after the queue inherited from its parent at fork time *)
+Theorem C02_queue_history : forall (rs : list mrec) (pid : N), mp_queue (mget (mrun rs) pid) = queue_of (rev rs) pid.
+Proof. exact queue_spec. Qed.
+Theorem C02_fork_inherits : forall rs pid ppid, (pid =? ppid) = false -> queue_of (MFork pid ppid :: rev rs) pid = queue_of (rev rs) ppid.
+Proof. exact fork_inherits. Qed.
+Theorem C02_exec_clears : forall rs pid, queue_of (MExec pid :: rev rs) pid = [].
+Proof. exact exec_clears. Qed.
+
+(* relative start: page offset when the binary is absent; when it is present, relative start + offset into the mapping is the SVMA of
+   that byte's file offset minus the image base (the relative address C05's symbol tables use) *)
+Theorem C02_rel_start_offset : forall start len pgoff, rel_start None start len pgoff = Some (pgoff mod 2 ^ 32).
+Proof. exact rel_start_absent. Qed.
+Theorem C02_rel_start_segments :
+  forall segs start len pgoff s rel x,
+  ref_seg segs pgoff len = Some s -> rel_start (Some segs) start len pgoff = Some rel ->
+  start <= x -> x < start + len ->
+  let svma_x := (Z.of_N (sg_svma s) + (Z.of_N pgoff + (Z.of_N x - Z.of_N start) - Z.of_N (sg_off s)))%Z in
+  (0 <= Z.of_N (sg_svma s) + Z.of_N pgoff - Z.of_N (sg_off s) - Z.of_N (base_svma segs) < 2 ^ 32)%Z ->
+  (Z.of_N start + Z.of_N (sg_off s) - Z.of_N pgoff - Z.of_N (sg_svma s) >= 0)%Z -> (Z.of_N start < 2 ^ 63)%Z -> (Z.of_N (base_svma segs) < 2 ^ 62)%Z ->
+  (Z.of_N (sg_off s) < 2 ^ 62)%Z -> (Z.of_N (sg_svma s) < 2 ^ 62)%Z -> (Z.of_N pgoff < 2 ^ 62)%Z ->
+  (Z.of_N rel + (Z.of_N x - Z.of_N start) = svma_x - Z.of_N (base_svma segs))%Z.
+Proof. exact rel_start_segments. Qed.
+
+(* call chains: the leaf is looked up at its address, every caller at return address - 1, order preserved root to leaf;
+   a context marker only switches the mode of the frames after it *)
+Theorem C02_call_chain_order :
+  forall ip kernel a chain, (forall x, In x (a :: chain) -> x < PERF_CONTEXT_MAX) ->
+  sample_frames ip kernel (a :: chain) = rev (SIp a (if kernel then Kernel else User) :: map (fun x => SRet x (if kernel then Kernel else User)) chain).
+Proof. exact sample_frames_plain. Qed.
+
+(* composition: in a time-ordered recording every sample of every process incarnation is attributed as the C11 history specification
+   says for the operations queued at or before its time *)
+Theorem C02_e2e_attribution :
+  forall rs, time_ordered 0 rs ->
+  forall pid p, In (pid, p) (incarnations (mrun rs)) -> flush [] (mp_queue p) (mp_samples p) = spec_flush (mp_queue p) (mp_samples p).
+Proof. exact e2e_attribution. Qed.
+
 Print Assumptions C02_cutoff_constant.
+Print Assumptions C02_queue_history.
+Print Assumptions C02_fork_inherits.
+Print Assumptions C02_exec_clears.
+Print Assumptions C02_rel_start_offset.
+Print Assumptions C02_rel_start_segments.
+Print Assumptions C02_call_chain_order.
+Print Assumptions C02_e2e_attribution.
 Print Assumptions C02_attribution.
 Print Assumptions C02_later_mmap_irrelevant.
 Print Assumptions C02_lookup_addresses.
@@ -43,4 +92,11 @@ Example ex_c02 :
   let q := [(5, QOp (Add (mkMapping 1000 2000 64 3))); (9, QOp Clear)] in
   spec_flush q [(4, [SRet 1500 User; SIp 1600 User]); (5, [SRet 1500 User; SRet 1 User; SIp 1500 Kernel; SIp 1600 User]); (9, [SIp 1600 User])]
   = [[RRaw 1499; RRaw 1600]; [RInLib 3 563; RRaw 0; RRaw 1500; RInLib 3 664]; [RRaw 1600]].
+Proof. vm_compute. reflexivity. Qed.
+
+(* the converter level on a concrete recording: a mapping inherited across fork, cleared by exec, looked up at ip and return address - 1 *)
+Example ex_c02_e2e :
+  let rs := [MExec 100; MMmap 100 1005 4096 8192 4096 None 3; MSample 100 1010 4660 false [4660; 8193; 20480];
+             MFork 200 100; MSample 200 1020 4660 false [4660]; MExec 200; MSample 200 1030 4660 false [4660]] in
+  moutput (mrun rs) = [(200, 1020, [RInLib 3 4660]); (100, 1010, [RRaw 20479; RInLib 3 8192; RInLib 3 4660]); (200, 1030, [RRaw 4660])].
 Proof. vm_compute. reflexivity. Qed.
